@@ -6,6 +6,7 @@ from harness import build as B
 from harness import refmodel as R
 from harness import spec as S
 from harness.core import is_err
+from harness.looptap import LOOPS
 from harness.probes import DISPATCH
 from harness.treecheck import blame, leaf_preds
 
@@ -25,6 +26,10 @@ def gen(tier, rng, shard, nshards):
             n = int(S.pick(rng, BIG))
             kind = S.pick(rng, ["Dense", "Generic", "Diagonal", "Tridiagonal", "Sum", "Kronecker", "BlockDiag", "NoDispatch",
                                 "Product"])
+            if rng.random() < 0.25:
+                # well beyond the block size: the automatic default (tolerance 1e-6) must still be the exact algorithm
+                # (its switch to the stochastic estimator lies at n ~ 3e5)
+                n, kind = int(S.pick(rng, [317, 330, 450])), S.pick(rng, ["Generic", "Product", "Sum", "NoDispatch"])
             node = big_node(rng, kind, n, dtm if dtm != "mixed" else "f8")
             ks = [0, 1, -1, n - 1, -(n - 1), 50, -50, 99, -99, 100, -100, 101, -101, n // 2, -(n // 3)]
             ks = [k for k in ks if -n < k < n]
@@ -72,16 +77,25 @@ def make_alg(name):
 GENERIC_RULES = ("diag(LinearOperator, int, Auto) p=-1", "diag(LinearOperator, int, Hutch | HutchPP | Exact) p=-1")
 
 
+STOCHASTIC = {"last": []}
+
+
 def call_diag(ctx, A, k, alg):
     """-> (result or Err, id of the rule selected for the top call)"""
     from cola import linalg as L
     DISPATCH.keep_events = True
     DISPATCH.reset()
-    if alg == OMIT:
-        out = ctx.call(L.diag, A, k) if k != 0 else ctx.call(L.diag, A)
-    else:
-        out = ctx.call(L.diag, A, k, make_alg(alg))
+    LOOPS.install()
+    LOOPS.start(hard_cap=80)  # the exact algorithm has no convergence loop; an estimator would run for thousands of steps
+    try:
+        if alg == OMIT:
+            out = ctx.call(L.diag, A, k) if k != 0 else ctx.call(L.diag, A)
+        else:
+            out = ctx.call(L.diag, A, k, make_alg(alg))
+    finally:
+        LOOPS.stop()
     first = next((e[2] for e in DISPATCH.events if e[0] == "diag"), None)
+    STOCHASTIC["last"] = [e for e in DISPATCH.events if e[0] == "diag" and any("Hutch" in t for t in e[1])]
     DISPATCH.keep_events = False
     return out, first
 
@@ -106,6 +120,10 @@ def evaluate(ctx, node, case):
     out = []
     got, rule = call_diag(ctx, A, k, case["alg"])
     ctx.count("top_rule", rule)
+    # (dispatch tap) neither the exact algorithm nor the automatic default at its default tolerance hands over to a
+    # stochastic estimator, at any size reachable here
+    out.append(("default-stays-exact", not STOCHASTIC["last"], {"stochastic_calls": [list(map(str, e)) for e in STOCHASTIC["last"][:3]], "n": n,
+                                                               "alg": case["alg"]}))
     structural = not is_generic(rule)
     if is_err(got):
         if structural:
